@@ -10,6 +10,7 @@ import (
 	"verif/gen"
 	"verif/probe"
 	"verif/ref"
+	"verif/ysugar"
 )
 
 // StdOps builds the probe history for a configuration: construct, fetch every service
@@ -159,7 +160,11 @@ func behaviourCheck(c *Ctx, n int, mk func(r *rand.Rand, i int) (*cfg.Config, []
 		if i%2 == 1 {
 			// the same configuration written as several files (2, 4, or 4 with single-section files): what the container does
 			// is a property of the merged configuration
-			u.Files = gen.Split(rand.New(rand.NewSource(c.Seed*31337+int64(i))), conf, 1+(i/2)%3)
+			mode := 1 + (i/2)%3
+			if len(conf.Services) >= 9 {
+				mode = 4 + (i/2)%2 // 7 or 12 files
+			}
+			u.Files = gen.Split(rand.New(rand.NewSource(c.Seed*31337+int64(i))), conf, mode)
 		}
 		units = append(units, u)
 	}
@@ -179,6 +184,7 @@ func hasTaggedArg(conf *cfg.Config) bool {
 
 // behaviourUnits runs prepared units and judges them against the reference container.
 func behaviourUnits(c *Ctx, lab *probe.Lab, units []*probe.Unit, nontrivial func(conf *cfg.Config) bool, skipTainted bool) error {
+	sugarUnits(c, units)
 	if err := runUnits(c, lab, units, false); err != nil {
 		return err
 	}
@@ -260,3 +266,21 @@ var _ = ref.JSON
 
 // NewLabOnlyMod initialises the probe module (fixtures, canary) without running anything.
 func NewLabOnlyMod(c *Ctx) (*probe.Lab, error) { return probe.NewLab(c.W) }
+
+// sugarUnits re-spells the files of every sixth unit with anchors/aliases, merge keys, explicit tags and block
+// scalars (equivalence validated by decoding both texts): what the container does is a property of the YAML
+// document, not of its spelling.
+func sugarUnits(c *Ctx, units []*probe.Unit) {
+	for i, u := range units {
+		if i%6 != 5 {
+			continue
+		}
+		rs := rand.New(rand.NewSource(c.Seed*7919 + int64(i)))
+		for j := range u.Files {
+			if y, st, ok := ysugar.Sugar(rs, u.Files[j].Content, 1); ok && st.Any() {
+				u.Files[j].Content = y
+				c.Add("files_with_anchors_or_merge_keys", 1)
+			}
+		}
+	}
+}
